@@ -331,7 +331,7 @@ def sendFuel (log : List Entry) (snap : List (Option Bool)) : Nat := log.length 
 /-- `__sendAppendEntries` restricted to one connected destination -/
 def sendOne (c : SendCfg) (log : List Entry) (next : Nat) (snap : List (Option Bool)) (budget : Option Nat) :
     Except Err SendRes :=
-  sendLoop c log (sendFuel log snap) next true false snap budget 0
+  sendLoop c log (sendFuel log snap + c.dropAfter.getD 0 + budget.getD 0) next true false snap budget 0
 
 /-! ## node state -/
 
@@ -532,48 +532,63 @@ inductive Branch
   | appendLocal | appendRemote | denied | forward | notLeader | missingLeader
 deriving DecidableEq, Repr
 
+/-- the `REQUEST_DENIED` answer of the leader branch -/
+def deniedOut : Cb → List Out
+  | .none => []
+  | .loc id => [.callback id .requestDenied]
+  | .remote node reqId => [.send node (.response reqId (.error .requestDenied))]
+
+/-- leader branch, accepted command: `raftLog.add`, record the change index (repair D5), register the
+callback / answer the requester -/
+def leaderAccept (s1 : Node) (cmd : Cmd) (cb : Cb) (idx term : Nat) (isReq : Bool) : Node × List Out × Branch :=
+  let s2 := { s1 with log := s1.log ++ [⟨cmd, idx, term⟩],
+                      changeIdx := if isReq then some idx else s1.changeIdx }
+  match cb with
+  | .none => (s2, [], .appendLocal)
+  | .loc id => ({ s2 with waitCommit := s2.waitCommit ++ [(idx, term, id)] }, [], .appendLocal)
+  | .remote node reqId => (s2, [.send node (.response reqId (.ok (idx, term)))], .appendRemote)
+
+/-- `changeClusterRequest is None or self.__changeCluster(changeClusterRequest)` -/
+def gateOf (cfg : Conf) (s : Node) (cmd : Cmd) : Except Err (Node × Bool × List Out) :=
+  match (if cfg.dynMember then parseChange cmd.kind else none) with
+  | none => .ok (s, true, [])
+  | some k => changeCluster s k
+
+def isRequest (cfg : Conf) (cmd : Cmd) : Bool := cfg.dynMember && (parseChange cmd.kind).isSome
+
+/-- branch `self.__raftState == LEADER` -/
+def leaderDispatch (cfg : Conf) (s : Node) (cmd : Cmd) (cb : Cb) : Except Err (Node × List Out × Branch) :=
+  match lastIdx? s.log with
+  | none => .error .indexError
+  | some last =>
+    match gateOf cfg s cmd with
+    | .error e => .error e
+    | .ok (s1, true, o1) =>
+      let (s3, o3, br) := leaderAccept s1 cmd cb (last + 1) s.term (isRequest cfg cmd)
+      if cfg.useBatch then .ok (s3, o1 ++ o3, br)
+      else
+        match sendAll cfg (fun _ => []) s3 none with
+        | .error e => .error e
+        | .ok (s4, o4) => .ok (s4, o1 ++ o3 ++ o4, br)
+    | .ok (s1, false, o1) => .ok (s1, o1 ++ deniedOut cb, .denied)
+
+/-- branches `elif self.__raftLeader is not None` / `else` -/
+def followerDispatch (s : Node) (cmd : Cmd) (cb : Cb) : Node × List Out × Branch :=
+  match s.leader with
+  | some l =>
+    match cb with
+    | .remote node reqId => (s, [.send node (.response reqId (.error .notLeader))], .notLeader)
+    | .none => (s, [.send l (.applyCommand cmd none)], .forward)
+    | .loc id =>
+      let c := s.localCounter + 1
+      ({ s with localCounter := c, waitReply := s.waitReply.put c id },
+       [.send l (.applyCommand cmd (some c))], .forward)
+  | none => (s, errCallback .missingLeader cb, .missingLeader)
+
 /-- one iteration body of `_checkCommandsToApply` after `get_nowait` -/
 def dispatchOne (cfg : Conf) (s : Node) (cmd : Cmd) (cb : Cb) : Except Err (Node × List Out × Branch) :=
-  if s.role = .leader then
-    match lastIdx? s.log with
-    | none => .error .indexError
-    | some last =>
-      let idx := last + 1
-      let req := if cfg.dynMember then parseChange cmd.kind else none
-      let gate : Except Err (Node × Bool × List Out) := match req with
-        | none => .ok (s, true, [])
-        | some k => changeCluster s k
-      match gate with
-      | .error e => .error e
-      | .ok (s1, true, o1) =>
-        let s2 := { s1 with log := s1.log ++ [⟨cmd, idx, s.term⟩],
-                            changeIdx := if req.isSome then some idx else s1.changeIdx }
-        let (s3, o3, br) : Node × List Out × Branch := match cb with
-          | .none => (s2, [], .appendLocal)
-          | .loc id => ({ s2 with waitCommit := s2.waitCommit ++ [(idx, s.term, id)] }, [], .appendLocal)
-          | .remote node reqId => (s2, [.send node (.response reqId (.ok (idx, s.term)))], .appendRemote)
-        if cfg.useBatch then .ok (s3, o1 ++ o3, br)
-        else
-          match sendAll cfg (fun _ => []) s3 none with
-          | .error e => .error e
-          | .ok (s4, o4) => .ok (s4, o1 ++ o3 ++ o4, br)
-      | .ok (s1, false, o1) =>
-        let o : List Out := match cb with
-          | .none => []
-          | .loc id => [.callback id .requestDenied]
-          | .remote node reqId => [.send node (.response reqId (.error .requestDenied))]
-        .ok (s1, o1 ++ o, .denied)
-  else
-    match s.leader with
-    | some l =>
-      match cb with
-      | .remote node reqId => .ok (s, [.send node (.response reqId (.error .notLeader))], .notLeader)
-      | .none => .ok (s, [.send l (.applyCommand cmd none)], .forward)
-      | .loc id =>
-        let c := s.localCounter + 1
-        .ok ({ s with localCounter := c, waitReply := s.waitReply.put c id },
-             [.send l (.applyCommand cmd (some c))], .forward)
-    | none => .ok (s, errCallback .missingLeader cb, .missingLeader)
+  if s.role = .leader then leaderDispatch cfg s cmd cb
+  else .ok (followerDispatch s cmd cb)
 
 /-- the `while` of `_checkCommandsToApply` over the queued items; `budget = some k`: the clock allows k
 iterations -/
@@ -698,18 +713,19 @@ def toAppendMsg : Msg → Option AppendMsg
   | .chunk l pos len e _ _ prev => some { prev := prev, chunk := some (l, slice (pickleEntry e) pos len) }
   | _ => none
 
-/-- a follower consuming a list of wire messages in order (C11 `entry_intact`) -/
-def followerRun (cfg : Conf) (src : Nat) : Node → List Msg → Except Err (Node × List Out)
+/-- a follower consuming a list of `append_entries` messages in order -/
+def followerRunA (cfg : Conf) (src : Nat) : Node → List AppendMsg → Except Err (Node × List Out)
   | s, [] => .ok (s, [])
-  | s, m :: rest =>
-    match toAppendMsg m with
-    | none => followerRun cfg src s rest
-    | some am =>
-      match followerAppend cfg s src am with
-      | (_, .error e) => .error e
-      | (s1, .ok o1) =>
-        match followerRun cfg src s1 rest with
-        | .error e => .error e
-        | .ok (s2, o2) => .ok (s2, o1 ++ o2)
+  | s, am :: rest =>
+    match followerAppend cfg s src am with
+    | (_, .error e) => .error e
+    | (s1, .ok o1) =>
+      match followerRunA cfg src s1 rest with
+      | .error e => .error e
+      | .ok (s2, o2) => .ok (s2, o1 ++ o2)
+
+/-- a follower consuming the wire messages of a send run in order (C11 `entry_intact`) -/
+def followerRun (cfg : Conf) (src : Nat) (s : Node) (msgs : List Msg) : Except Err (Node × List Out) :=
+  followerRunA cfg src s (msgs.filterMap toAppendMsg)
 
 end PSO.NodeSend
